@@ -67,6 +67,7 @@ package model
 //@   ensures[C20] view: len(u.UseCaseSupport) == Fcnt(len(S0)) && forall j int :: 0 <= j && j < len(S0) && kept(S0[j]) ==> u.UseCaseSupport[Fcnt(j)] == old(S0[j])
 //@   ensures[C20] gone: forall m int :: 0 <= m && m < len(u.UseCaseSupport) ==> !named(u.UseCaseSupport[m], useCaseName)
 //@   ensures[C20] locks: locksUnchanged() && onlyAcquires(uciMux)
+//@   ensures[C11,C20] snapshot-stable: forall j int :: 0 <= j && j < len(S0) ==> S0[j] == old(S0[j])
 //@   modifies u.UseCaseSupport, held
 //@   loop 0 invariant len: len(usecases) == Fcnt($k)
 //@   loop 0 invariant elems: forall j int :: 0 <= j && j < $k && kept($s[j]) ==> usecases[Fcnt(j)] == $s[j]
